@@ -121,9 +121,10 @@ Definition netip_from_ip (i : ip) : option ip :=
          end
   end.
 
-(** A CIDR rule as config.parseEgressRule leaves it: netip.Prefix (address, bits).  The
-    address keeps its parsed form: [F4] for dotted quads, [F6] for everything written
-    with colons - *including* IPv4-mapped notation, which netip keeps as a 128-bit address. *)
+(** A netip.Prefix (address, bits).  The address keeps its parsed form: [F4] for dotted quads,
+    [F6] for everything written with colons - netip keeps ::ffff:a.b.c.d as a 128-bit address
+    (Is4In6); config.parseEgressRule turns such a rule into its IPv4 form, see [compile_prefix]
+    at the end of this file. *)
 Record prefix := { px_fam : fam; px_addr : N; px_bits : N }.
 
 Definition fam_bits (f : fam) : N := match f with F4 => 32 | F6 => 128 | FBad => 0 end.
@@ -136,4 +137,19 @@ Definition prefix_contains (p : prefix) (a : ip) : bool :=
       (px_bits p <=? fam_bits (px_fam p)) &&
       (N.shiftr (N.lxor (ip_val a) (px_addr p)) (fam_bits (px_fam p) - px_bits p) =? 0)
   | _, _ => false
+  end.
+
+(** config.parseEgressRule (after fix 4e2df4c) applied to what netip.ParsePrefix / netip.ParseAddr
+    return ([ParseAddr a] = the prefix a/BitLen): a rule written in IPv4-mapped notation
+    (Addr.Is4In6, i.e. ::ffff:a.b.c.d) with at least 96 prefix bits is unmapped -
+    PrefixFrom(Unmap(), Bits-96) - because the addresses it is compared with are unmapped too.
+    Everything else (plain IPv4, plain IPv6, a mapped address with fewer than 96 bits) is kept. *)
+Definition is4in6 (a : N) : bool := a / c32 =? 65535.
+
+Definition compile_prefix (p : prefix) : prefix :=
+  match px_fam p with
+  | F6 => if is4in6 (px_addr p) && (96 <=? px_bits p)
+          then {| px_fam := F4; px_addr := px_addr p mod c32; px_bits := px_bits p - 96 |}
+          else p
+  | _ => p
   end.
